@@ -10,6 +10,7 @@ import (
 	"net/textproto"
 	"sort"
 	"strings"
+	"sync/atomic"
 	"time"
 
 	"github.com/vektah/gqlparser/v2/ast"
@@ -298,7 +299,7 @@ func scenUPL(s *sched.Sim, cfg Config, res *Result) {
 		wants[i] = resp.Data
 	}
 	var cr *clientResp
-	done := false
+	var done atomic.Bool
 	chunk := 1 + s.T.Choose(4096)
 	withErr := s.T.Bool(1, 2)
 	s.Go("client", func() {
@@ -319,9 +320,9 @@ func scenUPL(s *sched.Sim, cfg Config, res *Result) {
 		}
 		env.pending["up"] = pe
 		cr = env.do(r)
-		done = true
+		done.Store(true)
 	})
-	end := s.Run(func() bool { return done && len(s.Alive()) == 0 }, 400000, 10*time.Second)
+	end := s.Run(func() bool { return done.Load() && len(s.Alive()) == 0 }, 400000, 10*time.Second)
 	if end == sched.Hang {
 		res.Violate(prop+"/hang", "upload request did not finish: parked=%v", s.ParkedLabels())
 		return
